@@ -28,6 +28,11 @@ Converged(e) == \A k \in 1..Len(e.pairs) :
      (e.pairs[k].members) => (BothRegisteredLive(e.pairs[k]) /\ e.pairs[k].dconn = e.pairs[k].aconn
                               /\ e.pairs[k].dview /\ e.pairs[k].aview /\ e.pairs[k].pingok /\ e.pairs[k].nlive = 1)
 
+(* read-only nodes: a member registers one node per live read-only connection and has told its raft layer of each;  *)
+(* after the quiet period every running read-only node is registered at every member                                  *)
+ReadonlyRegistry(e) == \A k \in 1..Len(e.ro) : e.ro[k].reg = e.ro[k].told /\ e.ro[k].reg <= e.ro[k].live
+ReadonlyConverged(e) == \A k \in 1..Len(e.ro) : e.ro[k].reg = e.ro[k].up /\ e.ro[k].told = e.ro[k].up
+
 TNext ==
   /\ l <= Len(Steps(tid)) /\ l' = l + 1 /\ tid' = tid
   /\ LET e == Steps(tid)[l]
@@ -36,6 +41,8 @@ TNext ==
                 \cup (IF Authentic(e) THEN {} ELSE {"C14.Authentic"})
                 \cup (IF ~NotificationsMatch(e) THEN {"C14.NotificationsMatch"} ELSE {})
                 \cup (IF e.a[1] = "quiet-end" /\ ~Converged(e) THEN {"C14.EventuallyOneWorking"} ELSE {})
+                \cup (IF e.a[1] \in {"settled", "quiet-end"} /\ ~ReadonlyRegistry(e) THEN {"C14.ReadonlyRegistry"} ELSE {})
+                \cup (IF e.a[1] = "quiet-end" /\ ~ReadonlyConverged(e) THEN {"C14.ReadonlyConverged"} ELSE {})
                 \cup (IF e.exc THEN {"C14.NoEscape"} ELSE {})
      IN /\ (bad # {}) => PrintT(<<"VIOL", tid, l, e.a, bad>>)
         /\ (l = Len(Steps(tid))) => PrintT(<<"DONE", tid, 0, 0>>)
